@@ -256,14 +256,24 @@ func tBlank(ls []tline, r *Rand, p, q int) []tline {
 // whole-line comments before declaration headers (lines that end with ':') and at the end
 func tComment(ls []tline, r *Rand, p, q int) []tline {
 	out := make([]tline, 0, len(ls)*2)
+	viewIndent := -1 // indentation of the enclosing `!view` header, -1 when outside a view body
 	for _, l := range ls {
 		lead, rest := leadingRun(l.txt)
 		tr := strings.TrimRight(rest, "\r\n \t")
+		if tr != "" && !l.prot {
+			if viewIndent >= 0 && calcW(lead) <= viewIndent {
+				viewIndent = -1
+			}
+		}
+		inView := viewIndent >= 0
+		if tr != "" && !l.prot && viewIndent < 0 && strings.HasPrefix(tr, "!view") {
+			viewIndent = calcW(lead)
+		}
 		if strings.HasSuffix(tr, ":") && !l.prot && !strings.HasPrefix(tr, "#") && !strings.HasPrefix(tr, "|") && !strings.HasPrefix(tr, "@") && r.Chance(p, q) {
-			k := r.Intn(3)
-			if k == 1 && lead != "" {
-				// a column-0 comment is a whole-line comment "between declarations" only at the
-				// top level; inside a view/transform body it would sit inside an expression
+			k := r.Intn(5)
+			if (k == 1 || k == 3) && lead != "" && inView {
+				// a column-0 comment inside a view/transform body would sit inside an expression,
+				// not between declarations
 				k = 0
 			}
 			switch k {
@@ -271,6 +281,10 @@ func tComment(ls []tline, r *Rand, p, q int) []tline {
 				out = append(out, tline{lead + "# layout comment\n", false})
 			case 1:
 				out = append(out, tline{"# layout comment at column 0\n", false})
+			case 3:
+				out = append(out, tline{"#\n", false}) // bare hash at column 0
+			case 4:
+				out = append(out, tline{lead + "# \n", false})
 			default:
 				out = append(out, tline{lead + "#\n", false})
 			}
